@@ -4,6 +4,15 @@ import json, os, sys
 HERE = os.path.dirname(os.path.dirname(os.path.abspath(__file__)))
 
 CHECKS = {
+ "C06": dict(
+   technique="Hypothesis-generated programs with value-producing side effects, differential execution C reference vs RzIL interpreter",
+   text="Programs with 0..4 hybrids (postfix ++/--, calls to bundled sub-routines, GCC statement-expressions) in initialisers, assignments, "
+        "if conditions, loop steps, call arguments, store operands and ?: arms (statement-expression arms with differently typed arms, the "
+        "shape of the shipped saturation macros) are executed by both models on generated states; every top-level local is stored to memory "
+        "at the end so that a misplaced or repeated side effect is observable; a read of a never-written temporary is an error.",
+   note="Trusted: vlib/cref, vlib/il, machine model. Programs never read and modify a variable unsequenced. Listed finding classes are "
+        "excluded by construction and replayed as witnesses.",
+   design="7/C06"),
  "C07": dict(
    technique="exhaustive operand-spelling table, differential execution over generated bank values + static descriptor check",
    text="Every operand spelling QEMU's conventions produce (register class x letter x pair x V/N, explicit registers and aliases with/without "
